@@ -9,6 +9,7 @@ package federation
 import (
 	"context"
 	"encoding/json"
+	"errors"
 	"fmt"
 	"net/http"
 	"net/url"
@@ -72,6 +73,11 @@ func (l *c19Local) APIClientAuthorizationCurrent(ctx context.Context, _ arvados.
 	switch {
 	case !ok || res.Status == 401:
 		return arvados.APIClientAuthorization{}, httpErrorf(http.StatusUnauthorized, "Not logged in")
+	case res.Status == c19.StatusConnError:
+		// no HTTP answer at all: an error without a status
+		return arvados.APIClientAuthorization{}, errors.New("Get \"https://rails.c19.example/arvados/v1/api_client_authorizations/current\": dial tcp 192.0.2.19:443: connect: connection refused")
+	case res.Status == 403:
+		return arvados.APIClientAuthorization{}, httpErrorf(http.StatusForbidden, "Forbidden (token scopes do not permit this request)")
 	case res.Status != 200:
 		return arvados.APIClientAuthorization{}, httpErrorf(res.Status, "lookup failed")
 	}
@@ -111,6 +117,9 @@ func TestVerifC19Provider(t *testing.T) {
 			fw[i] = c19.ForwardFor(tk, remote, res[i])
 			wantErr = wantErr || fw[i].Error
 			labels = append(labels, "fw:"+fw[i].Shape)
+			if tk.Kind == c19.KindLegacy {
+				labels = append(labels, fmt.Sprintf("lookup-answer=%d", res[i].Status))
+			}
 		}
 		known := false
 		switch {
@@ -210,6 +219,10 @@ func (r *c19Rails) respond(c *c19.Captured) (int, string, []byte) {
 	switch {
 	case !ok || res.Status == 401:
 		return 401, "application/json", []byte(`{"errors":["Not logged in"]}`)
+	case res.Status == c19.StatusConnError:
+		return 0, "", nil // the recorder drops the connection
+	case res.Status == 403:
+		return 403, "application/json", []byte(`{"errors":["Forbidden"]}`)
 	case res.Status != 200:
 		return res.Status, "application/json", []byte(`{"errors":["lookup failed"]}`)
 	}
@@ -411,6 +424,9 @@ func TestVerifC19Conn(t *testing.T) {
 				legit = append(legit, fw[i].Accept...)
 				if ri == 0 {
 					labels = append(labels, "fw:"+fw[i].Shape)
+					if tk.Kind == c19.KindLegacy {
+						labels = append(labels, fmt.Sprintf("lookup-answer=%d", res[i].Status))
+					}
 				}
 			}
 			legit = append(legit, reqid)
